@@ -85,7 +85,9 @@ def tok(cs):
 
 
 class Gen:
-    def __init__(self, sel, p, wbits, rng, ops, tw=0):
+    def __init__(self, sel, p, wbits, rng, ops, tw=0, ext=False):
+        self.ext = ext            # field-size sweep: sparse forms of the towers above degree 12, both fp18 shapes
+        self.nsp = 0
         self.sel = sel
         self.p = p
         self.wbits = wbits
@@ -144,6 +146,16 @@ class Gen:
         z = {6: [4, 5], 9: [6, 7, 8], 8: [4, 5],
              12: [2, 3, 4, 5, 10, 11] if self.tw == 1 else [4, 5, 6, 7, 10, 11],
              18: [6, 7, 8, 9, 10, 11, 15, 16, 17]}.get(n)
+        if self.ext:
+            # the shapes alternate (the twist type a sweep build installs is the library's choice: the
+            # specification decides from the logged type / operand which shape the call was entitled to)
+            self.nsp += 1
+            alt = self.nsp % 2
+            z = {16: [list(range(8, 12)), list(range(4, 8))][alt],
+                 24: [list(range(16, 24)), list(range(8, 16))][alt],
+                 48: list(range(16, 32)) + list(range(40, 48)),
+                 54: list(range(18, 36)) + list(range(45, 54)),
+                 18: [[6, 7, 8, 9, 10, 11, 15, 16, 17], [3, 4, 5, 6, 7, 8, 15, 16, 17]][alt]}.get(n, z)
         if z is None:
             return None
         v = self.rnd(n)
@@ -452,3 +464,12 @@ def parse_list(text):
             res.append((int(f[0]), int(f[1], 16), int(f[2]), int(f[3]), [int(f[4], 16), int(f[5], 16)],
                         [int(x, 16) for x in f[6:9]]))
     return res
+
+
+def parse_any(text):
+    """the 'A' line of --list: (ok, fp id, embedding degree, ep2 twist type, ep3 twist type) of ep_param_set_any_pairf"""
+    for ln in text.splitlines():
+        f = ln.split()
+        if len(f) == 6 and f[0] == "A":
+            return tuple(int(x) for x in f[1:])
+    return (0, 0, 0, 0, 0)
